@@ -178,6 +178,12 @@ def check_file_calls(run, cases, per_file_budget, rng, with_extra=True):
             out = readcalls.invoke(readers[fi], op, a)
         ok, detail = readcalls.compare(out, ans['alts'], fc.ref, header_of=lambda t, fc=fc, ans=ans: fc.header(ans['alts'][0]['grid']))
         run.check(ok, f'C02.value[{op}]', case, detail, _exp(ans['alts'][0]))
+        mk = ans['model']['kind']
+        if mk not in ('unmodelled', 'skipped'):
+            if (mk == 'value') == (out[0] == 'value'):
+                run.traces_validated += 1
+            else:
+                run.drift(f'model outcome {mk} vs code {readcalls.describe(out)[:60]} for {op}{a} on {fc.label}')
     for r in readers.values():
         with env.quiet():
             r.close()
@@ -219,6 +225,7 @@ def _exp(alt):
 
 
 def run(run):
+    run.mc('MC_Reader', f'MC_Reader_C02_{run.tier}')
     if not codec.self_check(run.seed):
         run.machinery('zfpy block independence does not hold')
         return
